@@ -272,4 +272,8 @@ def run(repo: Repo, rep: Report, tier: str) -> None:
     from .c08 import generated_globals_rule
 
     generated_globals_rule(repo, rep, "C14.R6")
+    from .memo import memo_rule
+
+    memo_rule(repo, rep, "C14.R7")
+
 
